@@ -52,11 +52,17 @@ Proof.
 Qed.
 
 (* ---- bounds *)
+Lemma land_lxor_distr_l a b c : N.land (N.lxor a b) c = N.lxor (N.land a c) (N.land b c).
+Proof.
+  apply N.bits_inj. intro i. rewrite N.land_spec, !N.lxor_spec, !N.land_spec.
+  destruct (N.testbit a i), (N.testbit b i), (N.testbit c i); reflexivity.
+Qed.
+
 Lemma lxor_lt_pow2 a b n : a < 2 ^ n -> b < 2 ^ n -> N.lxor a b < 2 ^ n.
 Proof.
   intros Ha Hb.
   rewrite <- (N.mod_small a (2 ^ n)), <- (N.mod_small b (2 ^ n)) by assumption.
-  rewrite <- !N.land_ones, <- N.land_lxor_distr_l, N.land_ones.
+  rewrite <- !N.land_ones, <- land_lxor_distr_l, N.land_ones.
   apply N.mod_lt. apply N.pow_nonzero. discriminate.
 Qed.
 
@@ -127,13 +133,27 @@ Lemma cc_check_closed c k :
   beval (env_of [("computeCRC(data)"%string, c); ("check"%string, k)]) (cc_check GenFramerB.crc) = (c =? k).
 Proof. unfold beval. cbn. destruct (c =? k); reflexivity. Qed.
 
+Module N2Zb.
+Lemma inj_lxor a b : Z.of_N (N.lxor a b) = Z.lxor (Z.of_N a) (Z.of_N b).
+Proof. destruct a, b; reflexivity. Qed.
+Lemma inj_land a b : Z.of_N (N.land a b) = Z.land (Z.of_N a) (Z.of_N b).
+Proof. destruct a, b; reflexivity. Qed.
+Lemma inj_lor a b : Z.of_N (N.lor a b) = Z.lor (Z.of_N a) (Z.of_N b).
+Proof. destruct a, b; reflexivity. Qed.
+Lemma inj_shiftr a n : Z.of_N (N.shiftr a n) = Z.shiftr (Z.of_N a) (Z.of_N n).
+Proof. rewrite N.shiftr_div_pow2, Z.shiftr_div_pow2 by lia. now rewrite N2Z.inj_div, N2Z.inj_pow. Qed.
+Lemma inj_shiftl a n : Z.of_N (N.shiftl a n) = Z.shiftl (Z.of_N a) (Z.of_N n).
+Proof. rewrite N.shiftl_mul_pow2, Z.shiftl_mul_pow2 by lia. now rewrite N2Z.inj_mul, N2Z.inj_pow. Qed.
+End N2Zb.
+
 Lemma py_index_table i : (i < 256)%N ->
   py_index py_crc_table (Z.of_N i) = Ok (Z.of_N (iter_shift 8 i)).
 Proof.
   intros Hi. unfold py_index. rewrite py_crc_table_gen, py_gen_table_length.
   replace (Z.of_N i <? 0) with false by lia.
   replace ((Z.of_N i <? 0) || (Z.of_nat 256 <=? Z.of_N i))%bool with false by lia.
-  rewrite Z_N_nat, crc_table_entries by exact Hi. reflexivity.
+  replace (Z.to_nat (Z.of_N i)) with (N.to_nat i) by lia.
+  rewrite crc_table_entries by exact Hi. reflexivity.
 Qed.
 
 (* one iteration of the computeCRC loop = eight bit times of the bitwise algorithm *)
@@ -142,11 +162,11 @@ Lemma py_crc_step_eq s b : (s < 65536)%N -> (b < 256)%N ->
 Proof.
   intros Hs Hb. unfold py_crc_step.
   rewrite cc_idx_closed.
-  change 255 with (Z.of_N 255). rewrite <- N2Z.inj_lxor, <- N2Z.inj_land.
+  change 255 with (Z.of_N 255). rewrite <- N2Zb.inj_lxor, <- N2Zb.inj_land.
   rewrite py_index_table by apply land255_lt. cbn [bind].
   rewrite cc_upd_closed.
   change 8 with (Z.of_N 8). change 255 with (Z.of_N 255).
-  rewrite <- N2Z.inj_shiftr, <- N2Z.inj_land, <- N2Z.inj_lxor.
+  rewrite <- N2Zb.inj_shiftr, <- N2Zb.inj_land, <- N2Zb.inj_lxor.
   f_equal. f_equal. unfold crc_byte.
   rewrite (iter8_table (N.lxor s b)) by (apply lxor_lt_65536; lia).
   rewrite N.shiftr_lxor, (shiftr8_byte b Hb), N.lxor_0_r, hi_byte_mask by exact Hs.
@@ -179,7 +199,7 @@ Proof.
   rewrite py_crc_loop_eq by (try exact Hw; reflexivity). cbn [bind].
   rewrite cc_swap_closed.
   change 8 with (Z.of_N 8). change 65280 with (Z.of_N 65280). change 255 with (Z.of_N 255).
-  rewrite <- N2Z.inj_shiftl, <- N2Z.inj_shiftr, <- !N2Z.inj_land, <- N2Z.inj_lor.
+  rewrite <- N2Zb.inj_shiftl, <- N2Zb.inj_shiftr, <- !N2Zb.inj_land, <- N2Zb.inj_lor.
   rewrite swap_closed_N by (apply crc_reg_lt; [reflexivity | exact Hw]).
   reflexivity.
 Qed.
